@@ -81,7 +81,7 @@ def expected_registry(d):
 # the grammar G of well-formed definitions
 LITS_FULL = ["0.001", "0.5", "1", "1.0", "2.5", "1000", "1000.", "1e3"]
 LITS_SMALL = ["0.5", "1", "1000", "1000."]
-NOREF_IDS = ["Zeta", "Alpha", "Mid_Word", "beta_low"]
+NOREF_IDS = ["Zeta", "Alpha", "Mid_Word", "beta_low", "Pop2"]
 SYMS = ["u", "µx", "m²", "kw", "°d", "q/s"]
 
 
